@@ -24,6 +24,9 @@ var c16Texts = map[string]struct{ name, grl string }{
 	"X1": {"X", `rule X salience 2 { when F.I2 < 1 then F.I2 = F.I2 + 1; F.S = F.S + "x1"; }`},
 	"X2": {"X", `rule X salience 2 { when F.I2 < 1 then F.I2 = F.I2 + 1; F.S = F.S + "x2"; }`},
 	"Y":  {"Y", `rule Y { when F.K < 1 then F.K = F.K + 1; F.S = F.S + "y"; }`},
+	// a rule with a syntax error; only ever built as the tail of a resource whose other rules are duplicates,
+	// so that the resource adds nothing whatever the builder does with the rules preceding an error
+	"BAD": {"", `rule Z { when F.K < then F.K = F.K + 1; }`},
 }
 
 type c16KBKey struct{ name, ver string }
@@ -81,6 +84,11 @@ func (s *c16State) apply(o c16Op) (ns *c16State, wantErr bool) {
 		k.exists = true
 		for _, id := range strings.Split(o.arg, "+") {
 			t := c16Texts[id]
+			if id == "BAD" {
+				wantErr = true
+				k.dirty = true
+				continue
+			}
 			if _, dup := k.active[t.name]; dup {
 				wantErr = true
 				k.dirty = true
@@ -251,6 +259,7 @@ func C16(rep *ev.Reporter, tier string) {
 			for _, t := range []string{"X1", "X2", "Y", "X1+X2"} {
 				ops = append(ops, c16Op{"build", kb, t})
 			}
+			ops = append(ops, c16Op{"build", kb, "X2+BAD"}) // enabled only while X exists (see below)
 			for _, n := range []string{"X", "Y"} {
 				ops = append(ops, c16Op{"removelib", kb, n})
 			}
@@ -279,6 +288,9 @@ func C16(rep *ev.Reporter, tier string) {
 				for _, o := range ops {
 					k := n.st.kbs[o.kb]
 					if (o.kind == "storeload" || o.kind == "removelib" || o.kind == "store" || o.kind == "instantiate") && !k.exists {
+						continue
+					}
+					if _, hasX := k.active["X"]; o.arg == "X2+BAD" && !hasX {
 						continue
 					}
 					jobs = append(jobs, job{n, o})
@@ -444,7 +456,7 @@ func C16(rep *ev.Reporter, tier string) {
 		rep.Exhaustive = false
 		rep.Coverage["caps_hit"] = "time budget"
 	}
-	rep.Coverage["rule"] = fmt.Sprintf("breadth-first search over operation histories (depth <= %d) on one library with two knowledge bases, in two spaces: (A,1)/(A,2) and the separator-collision pair (a:b,c)/(a,b:c). Operations per knowledge base: build X1, build X2 (same name, other body), build Y, build 'X1 X2' in one resource, library-level RemoveRuleEntry(X|Y), store + load with overwrite, store alone (checkpoint), create + execute an instance in the middle of the history. States are deduplicated on the MODEL state (active rules per knowledge base + whether a build was rejected there + whether a checkpoint store was taken / an instance was created, and whether the knowledge base changed after it); every transition replays its history on a fresh library with the real builder/serializer. After every step: build error iff the model says duplicate; for every knowledge base a fresh instance can be created and its FetchMatchingRules + Execute observation equals that of the model's active rule texts built alone; instance-level removal changes only that instance; a rule removed from the running instance in a listener callback (cycle 1 or 2) is neither evaluated nor fired from then on. states/transitions are those of the library model; every transition is non-trivial (it is validated against the implementation).", depth)
+	rep.Coverage["rule"] = fmt.Sprintf("breadth-first search over operation histories (depth <= %d) on one library with two knowledge bases, in two spaces: (A,1)/(A,2) and the separator-collision pair (a:b,c)/(a,b:c). Operations per knowledge base: build X1, build X2 (same name, other body), build Y, build 'X1 X2' in one resource, build a duplicate of X followed by a rule with a syntax error (while X exists), library-level RemoveRuleEntry(X|Y), store + load with overwrite, store alone (checkpoint), create + execute an instance in the middle of the history. States are deduplicated on the MODEL state (active rules per knowledge base + whether a build was rejected there + whether a checkpoint store was taken / an instance was created, and whether the knowledge base changed after it); every transition replays its history on a fresh library with the real builder/serializer. After every step: build error iff the model says duplicate; for every knowledge base a fresh instance can be created and its FetchMatchingRules + Execute observation equals that of the model's active rule texts built alone; instance-level removal changes only that instance; a rule removed from the running instance in a listener callback (cycle 1 or 2) is neither evaluated nor fired from then on. states/transitions are those of the library model; every transition is non-trivial (it is validated against the implementation).", depth)
 }
 
 // c16HistClass names the operation kinds that matter for a signature: the last op and whether a
